@@ -457,7 +457,7 @@ def project_tetra_to_origin(tetra):
                     else:
                         ray, simplex_len = region_abc(tetra, a, b, c, a_cross_b)
                 else:
-                    ray, simplex_len = region_ad(tetra, a, d, da_aa)
+                    ray, simplex_len = region_ab(tetra, a, b, ba_aa)
             else:
                 if d.dot(a_cross_c) <= 0:
                     if ca * ca_da + cc * da_aa - dc * ca_aa <= 0:
@@ -496,7 +496,7 @@ def project_tetra_to_origin(tetra):
                         else:
                             ray, simplex_len = region_ac(tetra, a, c, ca_aa)
                     else:
-                        if c.dot(a_cross_b):
+                        if c.dot(a_cross_b) <= 0:
                             ray, simplex_len = region_abc(tetra, a, b, c, a_cross_b)
                         else:
                             ray, simplex_len = region_acd(tetra, a, c, d, a_cross_c)
